@@ -32,13 +32,16 @@ LEDGER = [
 ]
 
 
-def units_for(prop):
+def units_for(prop, tier=None):
     out = []
     for t in sorted(glob.glob(os.path.join(UNITS, '*.u.c'))):
         with open(t) as f:
             head = f.read(4000)
         m = re.search(r'^//@ props (.*)$', head, re.M)
         if m and prop in m.group(1).split():
+            mt = re.search(r'^//@ tier (.*)$', head, re.M)
+            if mt and tier and tier not in mt.group(1).split():
+                continue      # `//@ tier thorough`: not part of the per-change tier
             out.append(t)
     return out
 
@@ -99,7 +102,7 @@ def main():
     except x2c.ExtractionError as e:
         print('UNDECIDED property=%s reason=%s' % (a.prop, e))
         return 2
-    templates = units_for(a.prop)
+    templates = units_for(a.prop, None if a.unit else tier)
     if a.unit:
         templates = [t for t in templates if os.path.basename(t)[:-4] in a.unit]
     if not templates:
